@@ -3746,8 +3746,22 @@ impl<'a> Model<'a> {
                     // We need to rename the name in every formula:
 
                     // Parse all formulas with the old name
-                    // All internal formulas are R1C1
+                    // All internal formulas are R1C1 and stored in English: parse them
+                    // with the default locale and language regardless of the active ones
+                    let locale = self.locale;
+                    let language = self.language;
+                    self.parser.set_locale(get_default_locale());
+                    self.parser.set_language(get_default_language());
                     self.parser.set_lexer_mode(LexerMode::R1C1);
+                    // sheets (by id) that have their own name spelled like the renamed one
+                    let shadowing: Vec<u32> = self
+                        .parsed_defined_names
+                        .keys()
+                        .filter(|key| key.1.to_uppercase() == name_upper)
+                        .filter_map(|key| key.0)
+                        .filter_map(|index| self.workbook.worksheets.get(index as usize))
+                        .map(|worksheet| worksheet.sheet_id)
+                        .collect();
                     let worksheets = &mut self.workbook.worksheets;
                     for worksheet in worksheets {
                         let cell_reference = CellReferenceRC {
@@ -3755,16 +3769,30 @@ impl<'a> Model<'a> {
                             row: 1,
                             column: 1,
                         };
+                        // a call `name(..)` on this sheet resolves to the renamed name if it is
+                        // local to this sheet, or global and not shadowed by a local one
+                        let rename_calls = match sheet_id {
+                            Some(id) => id == worksheet.sheet_id,
+                            None => !shadowing.contains(&worksheet.sheet_id),
+                        };
                         let mut formulas = Vec::new();
                         for formula in &worksheet.shared_formulas {
                             let mut t = self.parser.parse(formula, &cell_reference);
-                            rename_defined_name_in_node(&mut t, name, scope, new_name);
+                            rename_defined_name_in_node(
+                                &mut t,
+                                name,
+                                scope,
+                                new_name,
+                                rename_calls,
+                            );
                             formulas.push(to_rc_format(&t));
                         }
                         worksheet.shared_formulas = formulas;
                     }
                     // Se the mode back to A1
                     self.parser.set_lexer_mode(LexerMode::A1);
+                    self.parser.set_locale(locale);
+                    self.parser.set_language(language);
                 }
                 df.name = new_name.to_string();
                 df.sheet_id = new_sheet_id;
